@@ -93,7 +93,7 @@ func (fc *FCtx) evalMulti(e ast.Expr, st *State) []Val {
 	case *ast.CompositeLit:
 		return []Val{fc.evalCompositeLit(e, st)}
 	case *ast.TypeAssertExpr:
-		oos("type assertion")
+		return fc.evalTypeAssert(e, st, false)
 	case *ast.FuncLit:
 		oos("function literal as value")
 	}
@@ -188,6 +188,9 @@ func (fc *FCtx) zeroTerm(s *Sort, t types.Type) string {
 	case KMap:
 		return app("mk_"+s.Name, fmt.Sprintf("((as const (Array %s Bool)) false)", s.Key.Name), fmt.Sprintf("((as const (Array %s %s)) %s)", s.Key.Name, s.Elem.Name, fc.zeroTerm(s.Elem, elemType(t))))
 	case KOpaque:
+		if isBz(s) {
+			return "bz_nil"
+		}
 		return fc.U.Const("zero_"+s.Name, s)
 	case KFloat:
 		return "((_ to_fp 11 53) RNE 0.0)"
@@ -340,7 +343,7 @@ func (fc *FCtx) nilCompare(e *ast.BinaryExpr, st *State) (Val, bool) {
 			v := fc.eval(other, st)
 			if v.S.Kind == KSlice {
 				term = fmt.Sprintf("(and (= %s 0) (= %s 0))", slLen(v), slCap(v))
-			} else if v.S.Name == "Bz" {
+			} else if isBz(v.S) {
 				term = "(= " + v.T + " bz_nil)"
 			} else {
 				oos("nil comparison on %s", typeString(t))
@@ -526,6 +529,11 @@ func (fc *FCtx) evalIndex(e *ast.IndexExpr, st *State, commaOk bool) []Val {
 		return []Val{v}
 	case KStr:
 		oos("string indexing")
+	case KOpaque:
+		if isBz(base.S) {
+			fc.panicCheck(st, "index", fmt.Sprintf("(and (<= 0 %s) (< %s (bz_len %s)))", idx.T, idx.T, base.T), e.Pos())
+			return []Val{{T: fmt.Sprintf("(bz_at %s %s)", base.T, idx.T), S: SInt, GoT: types.Typ[types.Uint8]}}
+		}
 	}
 	oos("indexing %s", base.S.Name)
 	return nil
@@ -533,6 +541,18 @@ func (fc *FCtx) evalIndex(e *ast.IndexExpr, st *State, commaOk bool) []Val {
 
 func (fc *FCtx) evalSlice(e *ast.SliceExpr, st *State) Val {
 	base := fc.eval(e.X, st)
+	if isBz(base.S) && !e.Slice3 {
+		lo := "0"
+		if e.Low != nil {
+			lo = fc.eval(e.Low, st).T
+		}
+		hi := fmt.Sprintf("(bz_len %s)", base.T)
+		if e.High != nil {
+			hi = fc.eval(e.High, st).T
+		}
+		fc.panicCheck(st, "slice-bounds", fmt.Sprintf("(and (<= 0 %s) (<= %s %s) (<= %s (bz_cap %s)))", lo, lo, hi, hi, base.T), e.Pos())
+		return Val{T: fmt.Sprintf("(bz_slice %s %s %s)", base.T, lo, hi), S: base.S, GoT: fc.info().TypeOf(e)}
+	}
 	if base.S.Kind != KSlice {
 		oos("slicing %s", base.S.Name)
 	}
@@ -637,6 +657,20 @@ func (fc *FCtx) evalCompositeLit(e *ast.CompositeLit, st *State) Val {
 			return fc.zeroVal(t)
 		}
 		oos("non-empty map literal")
+	case KOpaque:
+		if isBz(s) {
+			b := fc.U.Fresh("lit", s)
+			cs := []string{fmt.Sprintf("(= (bz_len %s) %d)", b, len(e.Elts)), fmt.Sprintf("(= (bz_cap %s) %d)", b, len(e.Elts)), fmt.Sprintf("(not (= %s bz_nil))", b)}
+			for i, el := range e.Elts {
+				if _, ok := el.(*ast.KeyValueExpr); ok {
+					oos("keyed byte literal")
+				}
+				v := fc.eval(el, st)
+				cs = append(cs, fmt.Sprintf("(= (bz_at %s %d) %s)", b, i, v.T))
+			}
+			st.assume(and(cs...))
+			return Val{T: b, S: s, GoT: t}
+		}
 	}
 	oos("composite literal of %s", s.Name)
 	return Val{}
